@@ -74,6 +74,20 @@ def _dtype(kind, dtype):
     return {"int": np.int64, "real": np.float64, "bool": np.bool_}.get(kind, object)
 
 
+def _laid_out(a, v, m):
+    """a 1-D array whose contiguity flag (pyvc/layout.py) is False under the model is rebuilt as a strided view: column 0 of a table"""
+    import numpy as np
+
+    c = getattr(v, "contiguous", None)
+    if isinstance(c, Sym):
+        c = z3.is_true(m.eval(c.z, model_completion=True))
+    if c is False and a.ndim == 1:
+        table = np.zeros((a.shape[0], 2), dtype=a.dtype)
+        table[:, 0] = a
+        return table[:, 0]
+    return a
+
+
 def concretise(v, m, memo=None):
     """native value of a pyvc value under model m"""
     import numpy as np
@@ -120,13 +134,13 @@ def concretise(v, m, memo=None):
                 pass
             return keep(np.array([concretise(x, m, memo) for x in v.items], dtype=_dtype(v.kind, v.dtype)).reshape(v.shape))
         items = [concretise(x, m, memo) for x in v.items]
-        return keep(np.array(items, dtype=_dtype(v.kind, v.dtype)).reshape(v.shape))
+        return keep(_laid_out(np.array(items, dtype=_dtype(v.kind, v.dtype)).reshape(v.shape), v, m))
     if isinstance(v, SArr):
         n = concretise(zint(v.n), m, memo)
         if not 0 <= n <= MAX_LEN:
             raise NotConcrete(f"array of length {n}")
         items = [_num(m.eval(z3.Select(v.arr, i), model_completion=True), v.kind) for i in range(n)]
-        return keep(np.array(items, dtype=_dtype(v.kind, v.dtype)))
+        return keep(_laid_out(np.array(items, dtype=_dtype(v.kind, v.dtype)), v, m))
     if isinstance(v, PList):
         if v.items is not None:
             out = keep([])
